@@ -5,6 +5,7 @@ import (
 	"encoding/json"
 	"flag"
 	"fmt"
+	"github.com/henrylee2cn/erpc/v6/plugin/ignorecase"
 	"os"
 	"os/exec"
 	"strings"
@@ -38,24 +39,45 @@ func takeRan() []string {
 
 type CtlA struct{ erpc.CallCtx }
 
-func (c *CtlA) AaBb(a *Arg) (*Res, *erpc.Status)   { noteRan("CtlA.AaBb"); return &Res{Tag: "CtlA.AaBb"}, nil }
-func (c *CtlA) ABcXYz(a *Arg) (*Res, *erpc.Status) { noteRan("CtlA.ABcXYz"); return &Res{Tag: "CtlA.ABcXYz"}, nil }
-func (c *CtlA) Aa_Bb(a *Arg) (*Res, *erpc.Status)  { noteRan("CtlA.Aa_Bb"); return &Res{Tag: "CtlA.Aa_Bb"}, nil }
+func (c *CtlA) AaBb(a *Arg) (*Res, *erpc.Status) {
+	noteRan("CtlA.AaBb")
+	return &Res{Tag: "CtlA.AaBb"}, nil
+}
+func (c *CtlA) ABcXYz(a *Arg) (*Res, *erpc.Status) {
+	noteRan("CtlA.ABcXYz")
+	return &Res{Tag: "CtlA.ABcXYz"}, nil
+}
+func (c *CtlA) Aa_Bb(a *Arg) (*Res, *erpc.Status) {
+	noteRan("CtlA.Aa_Bb")
+	return &Res{Tag: "CtlA.Aa_Bb"}, nil
+}
 
 type Ctl_B struct{ erpc.CallCtx }
 
-func (c *Ctl_B) X(a *Arg) (*Res, *erpc.Status)       { noteRan("Ctl_B.X"); return &Res{Tag: "Ctl_B.X"}, nil }
-func (c *Ctl_B) ABC_XYZ(a *Arg) (*Res, *erpc.Status) { noteRan("Ctl_B.ABC_XYZ"); return &Res{Tag: "Ctl_B.ABC_XYZ"}, nil }
+func (c *Ctl_B) X(a *Arg) (*Res, *erpc.Status) { noteRan("Ctl_B.X"); return &Res{Tag: "Ctl_B.X"}, nil }
+func (c *Ctl_B) ABC_XYZ(a *Arg) (*Res, *erpc.Status) {
+	noteRan("Ctl_B.ABC_XYZ")
+	return &Res{Tag: "Ctl_B.ABC_XYZ"}, nil
+}
 
 type Ctl__A struct{ erpc.CallCtx }
 
-func (c *Ctl__A) AaBb(a *Arg) (*Res, *erpc.Status) { noteRan("Ctl__A.AaBb"); return &Res{Tag: "Ctl__A.AaBb"}, nil }
+func (c *Ctl__A) AaBb(a *Arg) (*Res, *erpc.Status) {
+	noteRan("Ctl__A.AaBb")
+	return &Res{Tag: "Ctl__A.AaBb"}, nil
+}
 
 // CtlTwin / PshTwin: two methods of one controller that the http mapper sends to the same name.
 type CtlTwin struct{ erpc.CallCtx }
 
-func (c *CtlTwin) AaBb(a *Arg) (*Res, *erpc.Status)   { noteRan("CtlTwin.AaBb"); return &Res{Tag: "CtlTwin.AaBb"}, nil }
-func (c *CtlTwin) Aa__Bb(a *Arg) (*Res, *erpc.Status) { noteRan("CtlTwin.Aa__Bb"); return &Res{Tag: "CtlTwin.Aa__Bb"}, nil }
+func (c *CtlTwin) AaBb(a *Arg) (*Res, *erpc.Status) {
+	noteRan("CtlTwin.AaBb")
+	return &Res{Tag: "CtlTwin.AaBb"}, nil
+}
+func (c *CtlTwin) Aa__Bb(a *Arg) (*Res, *erpc.Status) {
+	noteRan("CtlTwin.Aa__Bb")
+	return &Res{Tag: "CtlTwin.Aa__Bb"}, nil
+}
 
 type PshTwin struct{ erpc.PushCtx }
 
@@ -67,12 +89,18 @@ type PshA struct{ erpc.PushCtx }
 func (c *PshA) AaBb(a *Arg) *erpc.Status { noteRan("PshA.AaBb"); return nil }
 func (c *PshA) Zz(a *Arg) *erpc.Status   { noteRan("PshA.Zz"); return nil }
 
-func FnCall(ctx erpc.CallCtx, a *Arg) (*Res, *erpc.Status) { noteRan("FnCall"); return &Res{Tag: "FnCall"}, nil }
-func FnPush(ctx erpc.PushCtx, a *Arg) *erpc.Status         { noteRan("FnPush"); return nil }
+func FnCall(ctx erpc.CallCtx, a *Arg) (*Res, *erpc.Status) {
+	noteRan("FnCall")
+	return &Res{Tag: "FnCall"}, nil
+}
+func FnPush(ctx erpc.PushCtx, a *Arg) *erpc.Status { noteRan("FnPush"); return nil }
 
 type SameC struct{ erpc.CallCtx }
 
-func (s *SameC) Same(a *Arg) (*Res, *erpc.Status) { noteRan("SameCall"); return &Res{Tag: "SameCall"}, nil }
+func (s *SameC) Same(a *Arg) (*Res, *erpc.Status) {
+	noteRan("SameCall")
+	return &Res{Tag: "SameCall"}, nil
+}
 
 type SameP struct{ erpc.PushCtx }
 
@@ -225,9 +253,14 @@ func mapCase(rec *Rec, c DataCase) {
 
 func regCase(rec *Rec, c DataCase, n int) {
 	unknown, _ := c["unknown"].(bool)
-	rec.SetTrace(fmt.Sprintf("reg%d", n), map[string]interface{}{"mode": "reg", "mapper": c.S("mapper"), "group": c.S("group"), "unknown": unknown, "set": c["set"]})
+	rewrite, _ := c["rewrite"].(bool)
+	rec.SetTrace(fmt.Sprintf("reg%d", n), map[string]interface{}{"mode": "reg", "mapper": c.S("mapper"), "group": c.S("group"), "unknown": unknown, "set": c["set"], "rewrite": rewrite})
 	setMapper(c.S("mapper"))
-	srv := erpc.NewPeer(erpc.PeerConfig{})
+	var plugins []erpc.Plugin
+	if rewrite {
+		plugins = append(plugins, ignorecase.NewIgnoreCase())
+	}
+	srv := erpc.NewPeer(erpc.PeerConfig{}, plugins...)
 	var r routeReg = srv
 	if g := c.S("group"); g != "" {
 		parts := strings.Split(g, "/")
@@ -238,7 +271,10 @@ func regCase(rec *Rec, c DataCase, n int) {
 		r = sub
 	}
 	if unknown {
-		srv.SetUnknownCall(func(ctx erpc.UnknownCallCtx) (interface{}, *erpc.Status) { noteRan("unknown-call"); return []byte(`{"tag":"u"}`), nil })
+		srv.SetUnknownCall(func(ctx erpc.UnknownCallCtx) (interface{}, *erpc.Status) {
+			noteRan("unknown-call")
+			return []byte(`{"tag":"u"}`), nil
+		})
 		srv.SetUnknownPush(func(ctx erpc.UnknownPushCtx) *erpc.Status { noteRan("unknown-push"); return nil })
 	}
 	type regd struct {
@@ -292,7 +328,7 @@ func regCase(rec *Rec, c DataCase, n int) {
 			cs.Push(name, &Arg{Tag: "r"})
 			// a push is handled asynchronously: wait for its handler only when one can be expected
 			// (the timing of the observation, not its verdict, depends on this)
-			if unknown || pushNames[name] {
+			if unknown || pushNames[name] || (rewrite && pushNames[strings.ToLower(name)]) {
 				WaitUntil(200*time.Millisecond, func() bool { ranMu.Lock(); defer ranMu.Unlock(); return len(ran) > 0 })
 			} else {
 				time.Sleep(300 * time.Microsecond)
@@ -304,7 +340,7 @@ func regCase(rec *Rec, c DataCase, n int) {
 		for i, g := range got {
 			ids[i] = strings.SplitN(g, ".", 2)[0]
 		}
-		rec.Emit("Request", "ns", ns, "name", name, "ran", ids, "methods", got, "code", code)
+		rec.Emit("Request", "ns", ns, "name", name, "lname", strings.ToLower(name), "ran", ids, "methods", got, "code", code)
 	}
 	seen := map[string]bool{}
 	try := func(name string) {
